@@ -56,7 +56,7 @@ class SqlGen:
         if r < 0.70:
             return [nm(n)]
         if r < 0.82:
-            return [nm('"' + n.replace('"', '') + self.r.choice(['', ' x', ';', "'", '--']) + '"')]
+            return [nm('"' + n.replace('"', '') + self.r.choice(['', ' x', ';', "'", '--', '\\"z', '\\"b  \r\n c', '""q', ' \n d']) + '"')]
         if r < 0.90:
             return [nm('`' + n + self.r.choice(['', ' y', ';', '"']) + '`')]
         if r < 0.95:
